@@ -324,18 +324,24 @@ func Consensus(trees <-chan Trees, cutoff float64) (*Tree, error) {
 		}
 		// We add the edge into the index
 		rooted := curtree.Tree.Rooted()
-		rootseen := false
+		var rootfirst *Edge
 		for _, e := range curtree.Tree.Edges() {
 			if rooted && e.Left() == curtree.Tree.Root() {
-				if rootseen {
+				if rootfirst != nil {
 					// The two branches under the root of a rooted tree define the
 					// same bipartition: it counts once, with the sum of their lengths
-					if v, ok := edgeindex.Value(e); ok {
+					// (a branch without length adds nothing)
+					if v, ok := edgeindex.Value(e); ok && e.Length() != NIL_LENGTH {
+						if rootfirst.Length() == NIL_LENGTH {
+							// The first one had no length: the absent value that
+							// was added for it is taken back
+							v.Len -= NIL_LENGTH
+						}
 						v.Len += e.Length()
 					}
 					continue
 				}
-				rootseen = true
+				rootfirst = e
 			}
 			edgeindex.AddEdgeCount(e)
 		}
